@@ -43,13 +43,15 @@ def nestW(n):
         w = b'\xa1\x07\x83' + inner + b'\xa0\x40'
     return w
 
-def nestG(n, pattern):
+def nestG(n, pattern, inner=b'\xa0', indef=False):
     """header nested n levels; pattern[i % len] in 'pb' 'pl' 'ub' 'ul': level i goes through the protected (p) or unprotected (u) header of
-    the counter signature, written bare (b) or as a one-element list (l)"""
-    w = b'\xa0'
+    the counter signature, written bare (b) or as a one-element list (l); `inner` is the innermost header map; with `indef` the maps
+    inside protected byte strings are written with indefinite length (not what the crate itself would emit)"""
+    w = inner
     for i in range(n):
         how = pattern[i % len(pattern)]
         if how[0] == 'p':
+            if indef and w[:2] == b'\xa1\x07': w = b'\xbf' + w[1:] + b'\xff'
             sig = b'\x83' + refcbor.head(2, len(w)) + w + b'\xa0\x40'
         else:
             sig = b'\x83\x40' + w + b'\x40'
@@ -78,7 +80,24 @@ def scale_shapes():
         ('encrypt-recipients', 'CoseEncrypt', lambda n: b'\x84\x40\xa0\xf6' + H(4, n) + rcp * n),
         ('kdf-trailing', 'CoseKdfContext', lambda n: H(4, n + 4) + b'\x01\x83\xf6\xf6\xf6\x83\xf6\xf6\xf6\x82\x18\x80\x40' + b'\x40' * n),
         ('value-array', 'Value', lambda n: H(4, n) + b'\x00' * n),
+        # two dimensions at once: one text label of 10n bytes and n short ones after it — a per-comparison cost that grows with the
+        # label (cloning, serialising or normalising both sides) is only quadratic when both grow (informed round 10)
+        ('header-long-and-many-text-labels', 'Header', lambda n: H(5, n + 1) + H(3, 10 * n) + b'x' * (10 * n) + b'\x00' + b''.join(t5(i) + b'\x00' for i in range(n))),
+        ('key-long-and-many-text-labels', 'CoseKey', lambda n: H(5, n + 2) + b'\x01\x04' + H(3, 10 * n) + b'x' * (10 * n) + b'\x00' + b''.join(t5(i) + b'\x00' for i in range(n))),
+        ('claims-long-and-many-text-names', 'ClaimsSet', lambda n: H(5, n + 1) + H(3, 10 * n) + b'x' * (10 * n) + b'\x00' + b''.join(t5(i) + b'\x00' for i in range(n))),
     ]
+
+def all_tags():
+    """every tag number registered in the crate's CborTag table, the tags CBOR itself gives a meaning, and a few unassigned ones"""
+    return sorted(set(tgen.reg_values('CborTag') + [0, 1, 2, 3, 4, 5, 21, 22, 23, 24, 32, 55799, 55800, 7, 99, 2**16, 2**32]))
+def tag_wraps(body, depth2=True):
+    """a valid encoding under every such tag, once and twice: never the structure itself (informed round 10: the CWT tag 61, defined in the
+    registry but used nowhere, stripped by the claims-set decoder; any tag stripped inside a protected byte string)"""
+    out = []
+    for t in all_tags():
+        out.append(refcbor.head(6, t) + body)
+        if depth2 and t in (24, 61, 55799, 18): out.append(refcbor.head(6, t) + refcbor.head(6, t) + body)
+    return out
 
 # ===================================================================== C01
 @register
@@ -278,6 +297,18 @@ class C02(Prop):
                 sgf = '(sig %s %s b)' % (self.ph_form(p2), E)
                 for adder in ('add_created_signature %s %s echo' % (sgf, aad), 'add_detached_signature %s %s %s echo' % (sgf, pl, aad), 'try_add_created_signature %s %s (k b01)' % (sgf, aad), 'try_add_detached_signature %s %s %s (k b01)' % (sgf, pl, aad)):
                     ops.append(mk('build CoseSignBuilder (protected %s) (payload %s) (%s)' % (E, pl, adder), planted=p2.hex(), k='build-keep'))
+            elif c < 0.93:
+                # stored bytes at every nesting level down to the deepest permitted one (16): each protected byte string on the way holds
+                # a map the crate would not emit itself, the innermost signature holds `p`; everything outside protected byte strings is
+                # deterministic, so re-encoding must give back the input (informed round 10: original_data dropped where depth == 0)
+                k = r.choice([1, 2, 3, 8, 14, 15, 15, 16, 16]); pat = r.choice([['pb'], ['ub'], ['pb', 'ub'], ['ub', 'pb', 'pb'], ['ub', 'ub', 'pb']])   # one signature is emitted bare
+                p = bytes.fromhex(r.choice([x for x in NONCANON_PH if x != 'a1011826'])) if r.random() < 0.9 else b''; planted = p.hex()      # (alg 38 is not registered: not a header)
+                innermost = b'\xa1\x07\x83' + refcbor.head(2, len(p)) + p + b'\xa0\x41\x07'
+                h = nestG(k - 1, pat, inner=innermost, indef=True)
+                if r.random() < 0.5: ops.append(mk('chain Header b' + h.hex(), planted=planted, k='deep-keep', n=k, wire=h.hex()))
+                else:
+                    w = b'\x84\x40' + h + b'\xf6\x40'
+                    ops.append(mk('chain CoseSign1 b' + w.hex(), planted=planted, k='deep-keep', n=k, wire=w.hex()))
             else:
                 ops.append(mk('bstr b' + p.hex(), planted=planted, k='bstr'))
                 ops.append(mk('sigstruct CoseSign1 %s - %s %s' % (self.ph_form(p), aad, g.b()), planted=planted, k='struct'))
@@ -314,6 +345,11 @@ class C02(Prop):
             if len(enc) != 2 or enc[1].strip() != o['op'].split(' b', 1)[1]: return 're-encoding a message with a %d-byte protected header does not give back the input' % m['plen']
             return None
         pl = o['meta'].get('planted')
+        if m.get('k') == 'deep-keep':
+            if not impl.startswith('ok '): return '%d levels of counter signatures (within the budget) were not accepted: %s' % (m['n'], impl[:40])
+            if '(ph b%s ' % pl not in impl: return 'original_data of the innermost signature (level %d) is not the wire content' % m['n']
+            if not impl.endswith(' ok b' + m['wire']): return 're-encoding %d nested levels does not give back the received protected bytes' % m['n']
+            return None
         if pl is None or not impl.startswith(('ok', '(called')): return None
         k = o['meta'].get('k')
         if k in ('sign1', 'sign', 'csig', 'enc0', 'mac', 'enc-rcp', 'supp', 'bstr'):
@@ -353,10 +389,21 @@ def lenbytes(r, big_p=0.05):
 
 class StructProp(Prop):
     """shared by C03-C05: protected header either stored bytes (oracle = those bytes) or built (oracle = model)"""
-    UNSER = ['(ph - (hdr A-7 (crit) - b b b (cs) (rest i1 i5)))', '(ph - (hdr - (crit) - b3131 b b (cs) (rest t78 i1 t78 i2)))', '(ph - (hdr - (crit) - b b b (cs) (rest i9 i1 i10 N i9 i2)))']
+    _SIG = '(sig (ph - (hdr - (crit) - b b b (cs) (rest))) (hdr - (crit) - b b b (cs) (rest)) b%02x)'
+    UNSER = ['(ph - (hdr A-7 (crit) - b b b (cs) (rest i1 i5)))', '(ph - (hdr - (crit) - b3131 b b (cs) (rest t78 i1 t78 i2)))', '(ph - (hdr - (crit) - b b b (cs) (rest i9 i1 i10 N i9 i2)))',
+             # every typed field in every form it is emitted in, beside an extra entry under that field's own label, first or after
+             # another extra (informed round 10: label 7 recorded as emitted only in the single-signature arm)
+             '(ph - (hdr X61 (crit) - b b b (cs) (rest i1 N)))', '(ph - (hdr P-70000 (crit) - b b b (cs) (rest i99 N i1 i1)))', '(ph - (hdr - (crit A1) - b b b (cs) (rest i2 i1)))', '(ph - (hdr - (crit A1 X61) - b b b (cs) (rest i99 N i2 (arr))))',
+             '(ph - (hdr - (crit) X612f62 b b b (cs) (rest i3 i1)))', '(ph - (hdr - (crit) A0 b b b (cs) (rest i3 t612f62)))', '(ph - (hdr - (crit) - b3131 b b (cs) (rest i99 N i4 b3131)))', '(ph - (hdr - (crit) - b b01 b (cs) (rest i5 b01)))',
+             '(ph - (hdr - (crit) - b b b02 (cs) (rest i6 N)))', '(ph - (hdr - (crit) - b b b (cs %s) (rest i7 i1)))' % (_SIG % 1), '(ph - (hdr - (crit) - b b b (cs %s %s) (rest i7 i1)))' % (_SIG % 1, _SIG % 2),
+             '(ph - (hdr - (crit) - b b b (cs %s %s %s) (rest i99 N i7 (arr))))' % (_SIG % 1, _SIG % 2, _SIG % 3), '(ph - (hdr A-7 (crit) - b b b (cs %s %s) (rest i7 N)))' % (_SIG % 1, _SIG % 2)]
     def phs(self, g, r):
         x = r.random()
         if x < 0.03: return r.choice(self.UNSER), None      # repeats a label: serialising it fails, the structure functions refuse (panic)
+        if 0.60 <= x < 0.66:
+            # a built header may hold any text as its content type (only the decoder is particular): padded, without or with several
+            # separators, look-alike separators — emitted as given (informed round 10: trimmed when encoded)
+            return '(ph - (hdr %s (crit) X%s %s b b (cs) (rest)))' % (r.choice(['-', 'A-7']), r.choice(TEXTS + [b' a/b ', b'a/b\n', '\u00a0a/b'.encode()]).hex(), r.choice(['b', 'b3131'])), None
         if 0.09 <= x < 0.12:
             # stored bytes that are present but empty, beside a parsed header that is not: the slot is the (empty) stored bytes
             return '(ph b (hdr %s (crit) - b3131 b b (cs) (rest)))' % r.choice(['A1', 'A-7', '-']), b''
@@ -394,7 +441,35 @@ class StructProp(Prop):
             got = m.group(1)
         if got != want: return 'structure bytes differ from the RFC 8152 structure'
         return None
+    HUGE_KIND = None
+    def child_ops(self, tier):
+        """external data and payloads beyond 2^24 bytes (implementation only; the oracle is the RFC 8152 structure computed here): a length
+        carried through a narrower integer type or a bounded iterator only shows at such sizes (informed round 10: `zip` with a range of
+        65535 << 8 positions cut both to their first 16 776 960 bytes)"""
+        out = []; E = C02.EMPTY
+        for n in ((1 << 24) + 1,) if tier == 'quick' else ((1 << 24) - 1, (1 << 24) + 1, (1 << 25) + 3):
+            big = bytes([0x5a]) * (n - 2) + b'\x01\x02'; small = b'\x07'
+            for which in ('aad', 'payload'):
+                aad, pl = (big, small) if which == 'aad' else (small, big)
+                if self.HUGE_KIND == 'sig': op = 'sigstruct CoseSign1 (ph - %s) - b%s b%s' % (E, aad.hex(), pl.hex()); slots = [b'', aad, pl]; ctx = b'Signature1'
+                elif self.HUGE_KIND == 'mac': op = 'macstruct CoseMac0 (ph - %s) b%s b%s' % (E, aad.hex(), pl.hex()); slots = [b'', aad, pl]; ctx = b'MAC0'
+                elif self.HUGE_KIND == 'enc':
+                    if which == 'payload': continue
+                    op = 'encstruct CoseEncrypt0 (ph - %s) b%s' % (E, aad.hex()); slots = [b'', aad]; ctx = b'Encrypt0'
+                else: continue
+                out.append(mk(op, k='huge', n=n, which=which, ctx=ctx.decode(), timeout=180, gen='%s of %d bytes (0x5a.. 01 02)' % (which, n)))
+        return out
+    def huge_pred(self, o, impl):
+        m = o['meta']; n = m['n']
+        if not impl.startswith('ok b'): return 'no structure for a %s of %d bytes (%s)' % (m['which'], n, impl[:40])
+        big = bytes([0x5a]) * (n - 2) + b'\x01\x02'; small = b'\x07'
+        aad, pl = (big, small) if m['which'] == 'aad' else (small, big)
+        want = spec_struct(m['ctx'].encode(), [b'', aad] + ([pl] if self.HUGE_KIND != 'enc' else []))
+        got = bytes.fromhex(impl[4:].strip())
+        if got != want: return 'structure over a %s of %d bytes is %d bytes long, the RFC 8152 structure %d%s' % (m['which'], n, len(got), len(want), '' if len(got) != len(want) else ' (same length, different content)')
+        return None
     def impl_pred(self, o, impl):
+        if o['meta'].get('k') == 'huge': return self.huge_pred(o, impl)
         exp = o['meta'].get('expect_panic')
         if any(u[len('(ph - '):-1] in o['op'] for u in self.UNSER):
             return None     # whether the call reaches that header (which signer is indexed) is decided by the proved model: judge() compares
@@ -405,6 +480,7 @@ class StructProp(Prop):
 @register
 class C03(StructProp):
     pid = 'C03'
+    HUGE_KIND = 'sig'
     def gen(self, seed, tier):
         r = random.Random(seed); g = T(seed, valid=1.0); ops = []
         for _ in range(budget(tier, 2500, 50000)):
@@ -491,6 +567,7 @@ class C03(StructProp):
 @register
 class C04(StructProp):
     pid = 'C04'
+    HUGE_KIND = 'mac'
     def gen(self, seed, tier):
         r = random.Random(seed); g = T(seed, valid=1.0); ops = []
         for _ in range(budget(tier, 3000, 60000)):
@@ -539,6 +616,7 @@ class C04(StructProp):
 @register
 class C05(StructProp):
     pid = 'C05'
+    HUGE_KIND = 'enc'
     def gen(self, seed, tier):
         r = random.Random(seed); g = T(seed, valid=1.0); ops = []
         for _ in range(budget(tier, 3000, 60000)):
